@@ -7,7 +7,7 @@ Requests (tokens after `C09`), lists are comma separated, `-` = empty list:
 
 * `onepoint L1 L2 cx`, `twopoint L1 L2 c1 c2`, `messy L1 L2 c1 c2` (integer genes)
 * `uniform L1 L2 indpb RS` (`indpb` and the `random()` results `RS` as float bit patterns)
-* `estwopoint G1 S1 G2 S2 c1 c2`
+* `estwopoint G1 S1 G2 S2 c1 c2`; `twopoints …` / `estwopoints …` = the documented former names
 * `pmx L1 L2 c1 c2`, `upmx L1 L2 indpb RS`, `ox L1 L2 a b` (natural-number genes)
 * `shuffle L indpb RS VS`, `flip L indpb RS`, `flipb L indpb RS` (Boolean genes), `flipf` (float-coded
   genes; flip answers carry the gene-type signature of the mutant as an extra token),
@@ -59,6 +59,25 @@ def handle : List String → String
               pure (l1, l2, c1, c2)) with
     | some (l1, l2, c1, c2) =>
       if cxTwoPointOk l1 l2 c1 c2 then answer2 showInts (fun x y => cxTwoPoint x y c1 c2) l1 l2 else "reject"
+    | none => "bad-op"
+  | ["twopoints", a, b, c, d] =>
+    -- the documented former name `cxTwoPoints`
+    match (do let l1 ← parseList parseInt a; let l2 ← parseList parseInt b; let c1 ← parseNat c; let c2 ← parseNat d
+              pure (l1, l2, c1, c2)) with
+    | some (l1, l2, c1, c2) =>
+      if cxTwoPointOk l1 l2 c1 c2 then answer2 showInts (fun x y => cxTwoPoints x y c1 c2) l1 l2 else "reject"
+    | none => "bad-op"
+  | ["estwopoints", g1, s1, g2, s2, c, d] =>
+    -- the documented former name `cxESTwoPoints` (ids by the convention of `inPlaceES`)
+    match (do let a1 ← parseList parseInt g1; let b1 ← parseList parseInt s1
+              let a2 ← parseList parseInt g2; let b2 ← parseList parseInt s2
+              let c1 ← parseNat c; let c2 ← parseNat d; pure (a1, b1, a2, b2, c1, c2)) with
+    | some (a1, b1, a2, b2, c1, c2) =>
+      if cxESTwoPointOk (⟨a1, b1⟩ : ESInd Int Int) ⟨a2, b2⟩ c1 c2 then
+        let r := cxESTwoPoints (⟨a1, b1⟩ : ESInd Int Int) ⟨a2, b2⟩ c1 c2
+        showInts r.1.genes ++ " " ++ showInts r.1.strategy ++ " " ++ showInts r.2.genes ++ " "
+          ++ showInts r.2.strategy ++ " 0 1 2 3"
+      else "reject"
     | none => "bad-op"
   | ["messy", a, b, c, d] =>
     match (do let l1 ← parseList parseInt a; let l2 ← parseList parseInt b; let c1 ← parseNat c; let c2 ← parseNat d
